@@ -141,7 +141,7 @@ Proof.
   destruct o as [ | |r| |m| | | | | |v| | | |v| | | |r|em|hl|hl|f|f|f| |rs| | | | ];
     try discriminate Hm;
     try destruct m; try destruct em; try destruct hl; try discriminate Hm;
-    destruct s as [p a r0 pr se t]; cbn in Hp, Hr, Hm; subst p r0;
+    destruct s as [p a r0 pr se t]; cbn in Hp, Hr; cbn [must_fail prog] in Hm; subst p r0;
     open_step; try rewrite Hm; cbn; reflexivity.
 Qed.
 
@@ -168,8 +168,8 @@ Proof.
        destr_state s; open_step; split_ifs; cbn in *; congruence). }
   destruct (Hi' Ha' Hs) as [Hp _].
   cbn [estep].
-  destruct (no_plain (set_run s' false) o) as [H|[_ H]]; try assumption; try reflexivity.
-  - destruct s'; assumption.
+  assert (Hp' : protected (set_run s' false) = true) by (destruct s'; exact Hp).
+  destruct (no_plain (set_run s' false) o Hp' eq_refl Hx) as [H|[_ H]].
   - rewrite H. exact I.
   - rewrite H. unfold cipher. destruct (prog (set_run s' false)); exact I.
 Qed.
@@ -180,7 +180,8 @@ Lemma read_discloses_if_unguarded : g_read = GNone ->
             ob (step s ORead) = Plain [2].
 Proof.
   intros H. exists (mkState true true false secret_code true false).
-  repeat split; try reflexivity.
+  split; [reflexivity|]. split; [reflexivity|]. split; [reflexivity|].
+  split; [unfold inv; cbn; auto|].
   unfold step, ob. rewrite H. reflexivity.
 Qed.
 
@@ -189,7 +190,8 @@ Lemma renum_discloses_if_unguarded : g_renum = GNone -> g_cb_renum = GNone ->
             ob (step s ORenum) = Plain [3].
 Proof.
   intros H1 H2. exists (mkState true true false secret_code true false).
-  repeat split; try reflexivity.
+  split; [reflexivity|]. split; [reflexivity|]. split; [reflexivity|].
+  split; [unfold inv; cbn; auto|].
   unfold step, ob. rewrite H1, H2. reflexivity.
 Qed.
 
